@@ -40,6 +40,8 @@ pub enum Step {
   UnknownPath(String),
   /// bytes that are not a well-formed HTTP request
   Raw(u8),
+  /// the index appears on disk while the service runs without one (created by another process, e.g. the CLI)
+  ExternalInit,
 }
 
 #[derive(Clone, Debug, Serialize, Deserialize)]
@@ -100,6 +102,19 @@ fn valid_body(route: &str, sel: u8) -> (&'static str, Vec<u8>) {
 
 fn invalid_body(route: &str, sel: u8) -> (&'static str, Vec<u8>) {
   let j = "application/json";
+  // error reasons quote request input: a third of the invalid bodies carry a long non-ASCII name
+  // (two- to four-byte characters, every alignment) so that whatever the service does with long
+  // reasons meets multi-byte text
+  if sel % 3 == 0 && matches!(route, "/add" | "/bulk" | "/search") {
+    let pad = "x".repeat((sel as usize / 3) % 4);
+    let ch = ["é", "東", "🚀", "ß"][(sel as usize / 12) % 4];
+    let name = format!("{pad}{}", ch.repeat(700));
+    return match route {
+      "/add" => ("application/x-ndjson", format!("{{\"_id\":\"x\",\"{name}\":1}}\n").into_bytes()),
+      "/bulk" => (j, json!({"docs": [{"_id": "x", name: 1}]}).to_string().into_bytes()),
+      _ => (j, json!({"query": {"type": name}, "limit": 1, "return_stored": false}).to_string().into_bytes()),
+    };
+  }
   let pick = |v: Vec<Vec<u8>>| v[sel as usize % v.len()].clone();
   match route {
     "/init" => (j, pick(vec![b"{".to_vec(), b"[]".to_vec(), b"{\"text_fields\": 5}".to_vec(), b"{\"doc_id_field\": \"\", \"text_fields\": []}".to_vec(), b"null".to_vec(), json!({"text_fields": [{"name": "body", "analyzer": "no-such-analyzer", "stored": true, "indexed": true}]}).to_string().into_bytes()])),
@@ -181,6 +196,7 @@ fn step_strategy() -> BoxedStrategy<Step> {
     2 => (route, select(vec!["GET", "POST", "PUT", "DELETE", "PATCH", "HEAD", "OPTIONS"])).prop_map(|(r, m)| Step::WrongMethod(r, m.to_string())),
     1 => select(vec!["/", "/nope", "/search/", "/init/x", "/add?x=1", "/%00", "/healthz2", "//search"]).prop_map(|s| Step::UnknownPath(s.to_string())),
     1 => any::<u8>().prop_map(Step::Raw),
+    1 => Just(Step::ExternalInit),
   ]
   .boxed()
 }
@@ -221,7 +237,8 @@ impl Property for C24 {
     Plan { workers: 8, cases_per_worker: tier.pick(120, 3000) }
   }
   fn shrink_iters() -> u32 {
-    800
+    // a hanging handler costs the request timeout per probe: keep the shrink budget small
+    60
   }
   fn isolate() -> bool {
     true
@@ -233,7 +250,8 @@ impl Property for C24 {
     let mut out = Outcome::new();
     let scratch = Scratch::new("c24");
     let root = scratch.sub("idx");
-    let srv = match Server::start(&root, &["--max-body-bytes", &MAX_BODY.to_string()]) {
+    // a short request timeout: a handler that hangs shows up as a 504 within seconds
+    let srv = match Server::start(&root, &["--max-body-bytes", &MAX_BODY.to_string(), "--request-timeout-secs", "5"]) {
       Ok(s) => s,
       Err(e) => {
         out.inconclusive = Some(format!("cannot start the HTTP service: {e:#}"));
@@ -335,6 +353,20 @@ impl Property for C24 {
             continue;
           }
           (format!("{m} {route}"), httpc::request(port, m, route, &[], b""), Expect::Refusal, None)
+        }
+        Step::ExternalInit => {
+          if has_index {
+            continue;
+          }
+          // another process creates the index at the served path; the service must pick it up
+          let storage = crate::sut::make_storage(&root, crate::sut::StorageKind::Fs);
+          if let Err(e) = crate::sut::create_index(&root, &scoreworld::schema(), crate::sut::index_options(&root, true, crate::sut::StorageKind::Fs, 0.9, 0.4), storage).map(drop) {
+            out.fail("harness-external-init-failed", format!("{e:#}"));
+            return out;
+          }
+          has_index = true;
+          out.class("index-created-behind-the-service");
+          ("GET /stats after the index was created by another process".to_string(), httpc::request(port, "GET", "/stats", &[], b""), Expect::Ok, Some("/stats".to_string()))
         }
         Step::UnknownPath(p) => (format!("GET {p}"), httpc::request(port, "GET", p, &[], b""), Expect::Refusal, None),
         Step::Raw(k) => {
